@@ -543,4 +543,122 @@ NOTE = ("value clauses verified in C13 as NdInterpolator.interpolate.linear / .n
         "data (data_period given: the unit-vector average of _periodic_data_interpolator) only the result shape is assumed - bounded in C14")
 along_axis = axis_contract("interpolate_dataset_along_axis", "t", PLAIN_KERNELS, AXIS_INSTANCES, _grid_req("t"), NOTE)
 
-CONTRACTS = [along_axis]
+
+
+# ------------------------------------------------------------------ interpolate_dataset_grid: the coordinates in order, each through the function above
+def _axis_call_result(mk, a):
+    """interpolate_dataset_along_axis at a call site of the wiring contracts: an uninterpreted application - the result is a fresh
+    data set token, the arguments (after binding the defaults) are recorded (ghost `axis_calls`); nothing is assumed about it"""
+    st = mk.st
+    k = len(st.ghost.get("axis_calls", ()))
+    tok = st.alloc(Obj("Dataset", {"vars": {}, "coords": {}, "interpolated_by_call": k}), "interpolated_data_set")
+    rec = {key: getattr(a, key) for key in ("coordinate_value", "data_set", "coordinate_name", "periodic_data", "periodic_coordinates", "nearest_neighbour")}
+    rec["coordinate_name"] = st.deref(rec["coordinate_name"])
+    rec["result"] = tok
+    st.ghost["axis_calls"] = st.ghost.get("axis_calls", ()) + (rec,)
+    return tok
+
+
+AXIS_CALL = CalleeContract(DS + "interpolate_dataset_along_axis", _axis_call_result, assumed=False,
+                           note="uninterpreted at this call site: the caller's contract is stated relative to it (its own contract is verified in C13 / C14)")
+
+
+def _p_grid(names, pdata):
+    def p(mk):
+        st = mk.st
+        ds = build_dataset(mk, "t", mk.size("n"), [("a", ("@",)), ("longitude", ("@",)), ("wave_direction", ("@", PASSIVE))])
+        coords = {nm: mk.array("x_" + nm, (mk.size("m_" + nm),)) for nm in names}
+        st.ghost["pre_vars"] = {k: v.id for k, v in st.deref(ds).fields["vars"].items()}
+        return {"coordinates": st.alloc(coords, "coordinates"), "data_set": ds,
+                "periodic_data": None if pdata is None else st.alloc({k: tuple(v) for k, v in pdata.items()}, "periodic_data"),
+                "longitude_variable_in_dataset": "longitude", "nearest_neighbour": mk.bool("nearest")}
+    return p
+
+
+def _same_ref(x, y):
+    return isinstance(x, Ref) and isinstance(y, Ref) and x.id == y.id
+
+
+def _g_chain(a, r):
+    """call k interpolates along the k-th coordinate of the mapping (its name, its values) the data set the previous call returned
+    (the caller's for the first); as many calls as coordinates"""
+    if not _symbolic(a):
+        return True
+    calls = a._ghost.get("axis_calls", ())
+    st = a._snap
+    coords = st.deref(a._raw["coordinates"])
+    if len(calls) != len(coords):
+        return False
+    prev = a._raw["data_set"]
+    for rec, (name, value) in zip(calls, coords.items()):
+        if rec["coordinate_name"] != name or not _same_ref(rec["coordinate_value"], value) or not _same_ref(rec["data_set"], prev):
+            return False
+        prev = rec["result"]
+    return True
+
+
+def _g_result(a, r):
+    """the last call's result; None for an empty mapping (native twin: equal to folding the real axis function)"""
+    if _symbolic(a):
+        calls = a._ghost.get("axis_calls", ())
+        return a._result_raw is None if not calls else _same_ref(a._result_raw, calls[-1]["result"])
+    from ocean_science_utilities.interpolate.dataset import interpolate_dataset_along_axis
+    cur = None
+    for name, value in a.coordinates.items():
+        cur = interpolate_dataset_along_axis(value, a.data_set if cur is None else cur, name, nearest_neighbour=a.nearest_neighbour)
+    return (r is None) if cur is None else bool(cur.equals(r))
+
+
+def _g_nearest(a, r):
+    if not _symbolic(a):
+        return True
+    return And(*[eq(rec["nearest_neighbour"], a.nearest_neighbour) if not isinstance(rec["nearest_neighbour"], bool)
+                 else rec["nearest_neighbour"] is a.nearest_neighbour for rec in a._ghost.get("axis_calls", ())])
+
+
+def _g_defaults(a, r):
+    """what the code does: periodic data / coordinates are left to the axis function's defaults (longitude and *direction* variables,
+    period 360) - a mapping given by the caller of interpolate_dataset_grid is NOT handed down (dataset.py:20-27 computes it, :37-42 drops it)"""
+    if not _symbolic(a):
+        return True
+    return all(rec["periodic_data"] is None and rec["periodic_coordinates"] is None for rec in a._ghost.get("axis_calls", ()))
+
+
+def _grid_native(kw, inst):
+    d = _axis_native({**kw, "coordinate_value": [], "nearest_neighbour": kw["nearest_neighbour"]}, inst)
+    import numpy as np
+    return {"coordinates": {k: np.asarray(v, dtype=float) for k, v in kw["coordinates"].items()}, "data_set": d["data_set"],
+            "periodic_data": d.get("periodic_data"), "longitude_variable_in_dataset": kw["longitude_variable_in_dataset"],
+            "nearest_neighbour": bool(kw["nearest_neighbour"])}
+
+
+def _grid_samples(rng, tier):
+    import numpy as np
+    import xarray
+    out = []
+    for _ in range(6 if tier == "quick" else 60):
+        nt, npas = int(rng.integers(2, 12)), int(rng.integers(2, 6))
+        t, pas = K._grid(rng, nt), K._grid(rng, npas, True)
+        data = {"a": (("t", PASSIVE), rng.normal(size=(nt, npas))), "longitude": (("t",), rng.uniform(0, 360, nt)),
+                "wave_direction": ((PASSIVE, "t"), rng.uniform(0, 360, (npas, nt))), "depth": (("elsewhere",), np.array([1.0, 2.0]))}
+        ds = xarray.Dataset(data, coords={"t": t, PASSIVE: pas})
+        names = [[], ["t"], [PASSIVE], ["t", PASSIVE], [PASSIVE, "t"]][int(rng.integers(0, 5))]
+        grids = {"t": t, PASSIVE: pas}
+        out.append(("two" if len(names) == 2 else "one" if names else "none",
+                    {"coordinates": {nm: K._targets(rng, grids[nm], int(rng.integers(1, 6))) for nm in names}, "data_set": ds, "periodic_data": None,
+                     "longitude_variable_in_dataset": "longitude", "nearest_neighbour": bool(rng.integers(0, 2))}))
+    return out
+
+
+grid = Contract(DS + "interpolate_dataset_grid",
+                instances=[("none", _p_grid([], None)), ("one", _p_grid(["t"], None)), ("two", _p_grid(["t", PASSIVE], None)),
+                           ("two,callers_periodic_data", _p_grid([PASSIVE, "t"], {"a": (360, 360)}))],
+                ensures=[("coordinates_applied_in_order_each_to_the_previous_result", _g_chain),
+                         ("result_of_the_last_axis", _g_result),
+                         ("nearest_neighbour_forwarded", _g_nearest),
+                         ("periodicity_left_to_the_axis_defaults", _g_defaults),
+                         ("operand_unchanged", _e_operand_unchanged)],
+                callees={DS + "interpolate_dataset_along_axis": AXIS_CALL}, native=_grid_native,
+                options={"samples": _grid_samples})
+
+CONTRACTS = [along_axis, grid]
